@@ -73,6 +73,8 @@ type Instance struct {
 	cacheSnap  []byte
 	slow       bool
 	creator    bool
+	rootsMem   map[string]bool
+	rootsFetchFailed bool
 }
 
 func (in *Instance) config(inc int) *ctlog.Config {
@@ -99,6 +101,7 @@ func (w *World) startLoad(in *Instance) {
 	in.state = stLoading
 	in.log = nil
 	in.seqErr, in.loadErr = nil, nil
+	in.rootsFetchFailed = false
 	cfg := in.config(inc)
 	in.cfg = cfg
 	w.sim.Logf("load i%d.%d", in.idx, inc)
@@ -118,6 +121,7 @@ func (w *World) startLoad(in *Instance) {
 		in.logs = append(in.logs, l)
 		l.VerifCacheReadConn().SetTracer(&cacheTracer{w: w, in: in, inc: inc, l: l})
 		in.handler = l.Handler()
+		w.rootsAfterLoad(in)
 		in.state = stRunning
 		n, h, t := l.VerifTree()
 		w.note("load i%d.%d ok size=%d root=%x time=%d", in.idx, inc, n, h[:4], t)
@@ -166,6 +170,8 @@ type Item struct {
 	Parse   bool     // certificate parses (names tile line expected)
 	CN      string
 	corpusIdx int
+	Spec      *chainSpec
+	Body      []byte // raw request body override (malformed submissions)
 }
 
 // Submission is one call of addLeafToPool / add-chain for an item.
@@ -197,6 +203,9 @@ type Submission struct {
 	gotEntry *sunlight.LogEntry
 	sctRsp *ct.AddChainResponse
 	cacheEpoch int
+	expectAccept bool
+	rootTrusted  bool
+	faultedPlan  bool
 }
 
 func independentCacheKey(e *ctlog.PendingLogEntry) [32]byte {
@@ -312,6 +321,9 @@ func (w *World) submitHTTP(in *Instance, it *Item, plan []int) *Submission {
 		body, _ := json.Marshal(struct {
 			Chain [][]byte `json:"chain"`
 		}{it.Chain})
+		if it.Body != nil {
+			body = it.Body
+		}
 		ep := "/ct/v1/add-chain"
 		if it.PreChain {
 			ep = "/ct/v1/add-pre-chain"
